@@ -51,6 +51,7 @@ def run(args):
         n = n_pre = 0
         failures = []
         shapes = set()
+        sigs = set()
         t0 = time.time()
         err = None
         try:
@@ -69,8 +70,12 @@ def run(args):
                 n += 1
                 shapes.add(json.dumps(case, sort_keys=True, default=str)[:300])
                 if not r.get("ok", True):
-                    failures.append({"case": case, "failed": r.get("failed", []), "exception": r.get("exception")})
-                    if len(failures) >= 5:
+                    # one witness per distinct set of failed clauses (a recorded finding must not crowd out a different violation)
+                    sig = "|".join(sorted(str(x)[:120] for x in r.get("failed", [])))
+                    if sig not in sigs:
+                        sigs.add(sig)
+                        failures.append({"case": case, "failed": r.get("failed", []), "exception": r.get("exception")})
+                    if len(failures) >= 8:
                         break
         except Exception:
             err = traceback.format_exc()[-1500:]
